@@ -311,7 +311,19 @@ func walk(md protoreflect.MessageDescriptor, m *model.Msg, set map[string]bool, 
 	}
 }
 
+// the framework asks for NonTrivial and Classes of the same case in turn: remember the last answer
+var lastClasses struct {
+	m   *model.Msg
+	set map[string]bool
+	n   int
+	why string
+}
+
 func (c jcase) classes() (set map[string]bool, populated int, why string) {
+	if lastClasses.m == c.M && c.M != nil {
+		return lastClasses.set, lastClasses.n, lastClasses.why
+	}
+	defer func() { lastClasses.m, lastClasses.set, lastClasses.n, lastClasses.why = c.M, set, populated, why }()
 	set = map[string]bool{}
 	md := mcase.Desc(c.Type)
 	walk(md, c.M, set, &populated, false)
@@ -366,6 +378,6 @@ func TestRoundTrip(t *testing.T) {
 			sort.Strings(out)
 			return out
 		},
-		Quick: 36000, Thorough: 150000,
+		Quick: 30000, Thorough: 120000,
 	})
 }
